@@ -372,11 +372,23 @@ func (g *pg) stmt(depth int) []lang.Stmt {
 			// a block whose last instruction carries an operand (a name)
 			x.Then = append(x.Then, lang.IncDec{N: rapid.SampledFrom(asg).Draw(g.t, "endinc"), Op: rapid.SampledFrom([]string{"++", "--"}).Draw(g.t, "endop")})
 		}
+		emptied := false
+		if g.chance("emptythen", 8) {
+			// an empty block is a block too
+			x.Then = []lang.Stmt{}
+			emptied = true
+		}
 		switch g.pick("elsek", 4) {
 		case 0:
 			x.Else = g.block(depth - 1)
+			if !emptied && g.chance("emptyelse", 8) {
+				x.Else = []lang.Stmt{}
+			}
 		case 1:
 			ei := &lang.If{C: g.cond(1), Then: g.block(depth - 1)}
+			if g.chance("emptyelseif", 8) {
+				ei.Then = []lang.Stmt{}
+			}
 			if g.chance("elseifelse", 50) {
 				ei.Else = g.block(depth - 1)
 			}
